@@ -1144,8 +1144,13 @@ pub fn lane_big(seed: u64) -> Vec<Scenario> {
                     if script && keep {
                         d.defaults.keep_crlf = Some(false);
                     }
+                    // (every other one without any limit at all: `total_timeout: 0s`)
+                    let unlimited = out.len() % 2 == 1;
+                    if unlimited {
+                        d.total_timeout_ns = Some(0);
+                    }
                     out.push(Scenario {
-                        lane: format!("big/{}/{}/{}/{}", if script { "script" } else { "proc" }, uname, sname, if both { "both" } else { "one" }),
+                        lane: format!("big/{}/{}/{}/{}{}", if script { "script" } else { "proc" }, uname, sname, if both { "both" } else { "one" }, if unlimited { "/unlimited" } else { "" }),
                         tier: Tier::Lib,
                         script_mode: script,
                         docs: vec![d],
